@@ -44,7 +44,12 @@ def calc_equilibrium_temperature(
 
     heating = insolation_heating
     if internal_heating is not None:
-        heating += internal_heating
+        # Build a new object: `heating += ...` would modify the caller's insolation array in place.
+        heating = insolation_heating + internal_heating
+
+    # A surface can not radiate a negative power. Without this floor a net heat loss gives a complex (float) or NaN (array)
+    #    temperature, which later breaks the njit-compiled cooling models.
+    heating = np.maximum(heating, 0.)
 
     # TODO: There was a divisor of 1/2 on this coeff before. I don't recognize it from anywhere. Removed for now.
     # coeff = 4. * np.pi * radius**2 * emissivity * sbc / 2.
